@@ -529,8 +529,8 @@ fn cmd_batch(args: &[String]) -> i32 {
     let outdir = need(args, "--outdir").to_string();
     let replay_dir = need(args, "--replay-dir").to_string();
     let thorough = tier == "thorough";
-    let programs: u64 = arg(args, "--programs").map(|s| s.parse().expect("programs")).unwrap_or(if thorough { 120_000 } else { 6_000 });
-    let schedules: usize = arg(args, "--schedules").map(|s| s.parse().expect("schedules")).unwrap_or(if thorough { 400 } else { 150 });
+    let programs: u64 = arg(args, "--programs").map(|s| s.parse().expect("programs")).unwrap_or(if thorough { 1_500_000 } else { 60_000 });
+    let schedules: usize = arg(args, "--schedules").map(|s| s.parse().expect("schedules")).unwrap_or(if thorough { 300 } else { 150 });
     std::fs::create_dir_all(&outdir).ok();
     std::fs::create_dir_all(&replay_dir).ok();
     let exe = std::env::current_exe().expect("exe");
